@@ -186,6 +186,8 @@ def run_case(case, reports=False, keep_objects=False):
             args.append("--logging-filter=%s" % cfg["logfilter"])
         if cfg.get("logclear"):
             args.append("--logging-clear-handlers")
+        if cfg.get("wip"):
+            args.append("--wip")
         try:
             config = Configuration(command_args=args, load_config=False)
         except SystemExit:
@@ -229,7 +231,7 @@ def run_case(case, reports=False, keep_objects=False):
                 return
             if cfg.get("tamper") and o in ("fail", "error", "skip_fail"):
                 # a step that redirects the process streams by hand and dies before undoing it
-                if cfg.get("cap_out", True):
+                if cfg.get("cap_out", True) and not cfg.get("wip"):       # (--wip switches stdout capture off)
                     sys.stdout = _Forward(sys.stdout)
                 if cfg.get("cap_err", True):
                     sys.stderr = _Forward(sys.stderr)
